@@ -163,7 +163,11 @@ impl Sys {
     }
 
     fn new(case: usize, nch: usize) -> Sys {
-        let policy = World::default_policy();
+        let mut policy = World::default_policy();
+        // one case in three under a filter whose strict rule shadows the permissive one: nothing is downgraded
+        if case % 3 == 2 {
+            policy.filter = shadowed_permissive_filter();
+        }
         let mut seed = [0u8; 32];
         seed[0] = (case % 251) as u8;
         seed[1] = 0xa7;
